@@ -1197,7 +1197,8 @@ def replay(ctx, body):
                 print("second write:", None if r2 is None else ("adds nothing" if r2["kind"] == 0 else repr(r2["after"].decode("utf-8", "replace"))))
     elif kind == "loop":
         res = run_loop(ctx, body["files"], dep_pool()[body["dep"]], bool(body.get("dry_run")))
-        print("stores:", res["rels"], "writer answers:", res["outs"], "changed:", res["changed"], "changesets:", res["cs_paths"])
+        print("stores:", res["rels"], "writer answers:", res["outs"], "changed:", res["changed"], "changesets:", res["cs_paths"],
+              "| exception:", res["exc"], "(probe crashed)" if res["probe_crashed"] else "")
         for rel in res["changed"]:
             print(rel, ":", repr(res["before"][rel]), "->", repr(res["after"][rel]))
     elif kind == "cli":
